@@ -194,7 +194,7 @@ func (c *FnVC) applyContract(x *ssa.Call, ct *Contract, f *ssa.Function, sig *ty
 	}
 	b := x.Block()
 	for i, r := range ct.Requires {
-		for j, cj := range splitConj(r.Expr) {
+		for j, cj := range splitConjDeep(r.Expr, 0) {
 			t, err := pre.boolExpr(cj)
 			if err != nil {
 				c.errorf("%s: requires of %s %q: %v", c.fnName(), name, r.Text, err)
